@@ -270,4 +270,56 @@ theorem cpLoad_cpSave (objs : List (Bytes × Bytes)) (h : (cpCollect objs).lengt
   simp only [cpLoad, cpSave, h1, h2, leNat_leBytes 8 _ h, List.take_length, resize, Nat.sub_self,
     List.replicate_zero, List.append_nil]
 
+/-! ### `DistFileIO::write_combined / read_combined`, one process -/
+
+def dfHdr (s b : Bytes) : List Nat := [dfMagic, 40 + b.length + s.length, 1, s.length, b.length]
+
+theorem dfWrite_eq (s b : Bytes) : dfWrite s b = wordsBytes 8 (dfHdr s b) ++ s ++ b := rfl
+
+theorem length_dfHdr (s b : Bytes) : (dfHdr s b).length = 5 := rfl
+
+theorem length_dfHdr_bytes (s b : Bytes) : (wordsBytes 8 (dfHdr s b)).length = 40 := by
+  rw [length_wordsBytes, length_dfHdr]
+
+theorem resize_dfWrite (s b : Bytes) : resize 40 (dfWrite s b) = wordsBytes 8 (dfHdr s b) := by
+  rw [dfWrite_eq, List.append_assoc, resize, List.take_left' (length_dfHdr_bytes s b)]
+  simp only [List.length_append, length_dfHdr_bytes]
+  rw [show 40 - (40 + (s.length + b.length)) = 0 by omega]
+  simp
+
+theorem dfHdr_lt (s b : Bytes) (h : 40 + b.length + s.length < 256 ^ 8) : ∀ v ∈ dfHdr s b, v < 256 ^ 8 := by
+  intro v hv
+  simp only [dfHdr, List.mem_cons, List.not_mem_nil, or_false] at hv
+  rcases hv with h1 | h1 | h1 | h1 | h1 <;> subst h1
+  · decide
+  all_goals omega
+
+theorem read_dfHdr_aux (s b : Bytes) (hlt : ∀ v ∈ dfHdr s b, v < 256 ^ 8) :
+    readWords ([] ++ wordsBytes 8 (dfHdr s b) ++ []) 8 0 (dfHdr s b).length = some (dfHdr s b) :=
+  readWords_at 8 (dfHdr s b) [] [] 0 rfl hlt
+
+theorem read_dfHdr (s b : Bytes) (hlt : ∀ v ∈ dfHdr s b, v < 256 ^ 8) :
+    readWords (wordsBytes 8 (dfHdr s b)) 8 0 5 = some (dfHdr s b) := by
+  have := read_dfHdr_aux s b hlt
+  rw [List.nil_append, List.append_nil, length_dfHdr] at this
+  exact this
+
+theorem df_shared (s b : Bytes) : ((dfWrite s b).drop 40).take s.length = s := by
+  rw [dfWrite_eq]
+  exact drop_take_mid _ _ _ _ _ (length_dfHdr_bytes s b) rfl
+
+theorem df_buffer (s b : Bytes) : ((dfWrite s b).drop (40 + s.length)).take b.length = b := by
+  have : dfWrite s b = (wordsBytes 8 (dfHdr s b) ++ s) ++ b ++ [] := by rw [dfWrite_eq, List.append_nil]
+  rw [this]
+  exact drop_take_mid _ _ _ _ _ (by rw [List.length_append, length_dfHdr_bytes]) rfl
+
+theorem resize_self (l : Bytes) : resize l.length l = l := by
+  simp [resize]
+
+theorem dfRead_dfWrite (s b s0 b0 : Bytes) (h : 40 + b.length + s.length < 256 ^ 8) :
+    dfRead (dfWrite s b) s0 b0 = some (if s.length > 0 then s else s0, if b.length > 0 then b else b0) := by
+  unfold dfRead
+  rw [resize_dfWrite, read_dfHdr s b (dfHdr_lt s b h)]
+  simp only [dfHdr, ne_eq, not_true_eq_false, or_self, if_false, df_shared, df_buffer, resize_self]
+
 end FeatModel.Ser
